@@ -341,6 +341,43 @@ def profile_C16(g, tier):
     return scen
 
 
+CHAINS = {
+    "vm1": ["install", "customize", "on_customize"], "vm1b": ["install", "customize", "connect"],
+    "vm1c": ["install", "customize", "linux_virtuser"],
+    "vm2": ["install", "customize", "windows_virtuser"], "vm2b": ["install", "customize", "on_customize"],
+    "vm3": ["install", "customize"],
+}
+AVAILABLE_VMS = [
+    {"vm1": "only CentOS\n", "vm2": "only Win10\n", "vm3": "only Ubuntu\n"},
+    {"vm1": "only Fedora\n", "vm2": "only Win7\n", "vm3": "only Kali\n"},
+]
+
+
+def profile_C15(g, tier):
+    available = dict(g.pick("available", AVAILABLE_VMS))
+    selected = g.pick("selected", [["vm1"], ["vm2"], ["vm1", "vm2"], ["vm1"], ["vm2"], ["vm3"], ["vm1", "vm2", "vm3"]])
+    nets = g.pick("nets", ["net1", "net1", "net1 net2", "net2 net4", "net1 net2 net4", "cluster1.net6 cluster1.net8", "net1 cluster1.net6"])
+    vms_params = {}
+    for vm in selected:
+        chain = CHAINS[g.pick(f"chain{vm}", [k for k in CHAINS if k.startswith(vm)])]
+        i = g.pick(f"from{vm}", list(range(len(chain))))
+        j = g.pick(f"to{vm}", list(range(i, len(chain))))
+        if g.chance(f"default{vm}", 0.3):
+            continue  # defaults: install -> customize
+        vms_params[f"from_state_{vm}"] = chain[i]
+        vms_params[f"to_state_{vm}"] = chain[j]
+    if g.chance("remove_set", 0.25):
+        vms_params["remove_set"] = g.pick("rs", ["minimal", "leaves", "normal"])
+    if g.chance("invalid", 0.1):
+        vm = selected[0]
+        vms_params[g.pick("which", [f"from_state_{vm}", f"to_state_{vm}"])] = g.pick("bogus", ["nonexistent", "custmize"])
+    scen = {"tool": "update", "tests": "-", "vm_strs": {vm: available[vm] for vm in selected}, "available_vms": available,
+            "nets": nets, "mode": "eager", "params": {"shared_pool": "/mnt/local/images/shared"},
+            "vms_params": vms_params,
+            "families": {"durations": g.pick("durations", ["ties", "spread", "unit"]), "p_pop_shared": 1.0}, "epochs": [{}]}
+    return scen
+
+
 PROFILES = {
     "C01": profile_C01,
     "C02": profile_C02,
@@ -353,4 +390,5 @@ PROFILES = {
     "C16": profile_C16,
     "C08": profile_C08,
     "C10": profile_C10,
+    "C15": profile_C15,
 }
